@@ -26,7 +26,8 @@ namespace internal {
 template <typename T>
 constexpr auto round_int(T const x) noexcept -> T
 {
-    return static_cast<T>(find_whole(x));
+    // x >= 0; computed in T: find_whole() returns a long long, and the long double just below 2^63 rounds up to 2^63
+    return (x - floor_check(x) >= T(0.5)) ? floor_check(x) + T(1) : floor_check(x);
 }
 
 template <typename T>
